@@ -391,9 +391,13 @@ func (e *Engine) writeEvidence(prop string, o runOpts, seed int, sum checkSummar
 		"wall_s":      round2(wall),
 		"violations":  violations,
 	}
-	os.MkdirAll(filepath.Join(e.VerifDir, "evidence"), 0o755)
+	outDir := e.VerifDir
+	if d := os.Getenv("GVC_OUT"); d != "" {
+		outDir = d
+	}
+	os.MkdirAll(filepath.Join(outDir, "evidence"), 0o755)
 	data, _ := json.MarshalIndent(ev, "", " ")
-	os.WriteFile(filepath.Join(e.VerifDir, "evidence", prop+".json"), data, 0o644)
+	os.WriteFile(filepath.Join(outDir, "evidence", prop+".json"), data, 0o644)
 }
 
 func round2(f float64) float64 { return float64(int(f*100+0.5)) / 100 }
@@ -404,7 +408,11 @@ type replayInfo struct {
 }
 
 func (e *Engine) writeReplay(prop string, res *FuncResult, g *Goal, o runOpts) replayInfo {
-	dir := filepath.Join(e.VerifDir, "replays", prop)
+	outDir := e.VerifDir
+	if d := os.Getenv("GVC_OUT"); d != "" {
+		outDir = d
+	}
+	dir := filepath.Join(outDir, "replays", prop)
 	os.MkdirAll(dir, 0o755)
 	path := filepath.Join(dir, sanitize(g.Name)+".json")
 	rp := map[string]any{
